@@ -242,6 +242,9 @@ def run (ctx):
     opens = [st for t, v, st, k in q.stores_in(hfr.node) if isinstance(t, ast.Attribute) and t.attr == '_deferred_port_status' and isinstance(v, ast.List) and not v.elts]
     ctx.ob('R-EFFECT', hfr, "the features reply opens the port-status buffer", bool(opens), norm(opens[0]) if opens else
            "the handshake's features-reply handler no longer starts the buffer: port status received during the rest of the handshake is lost (or an older buffer is kept)", hfr, 'D2')
+  # while the buffer is open every notification is kept - a repeated (equal) one too: add / delete / add of the same port is three
+  # notifications, and dropping the third because it equals the first loses the port.  By evaluation on a sample buffer
+  early_port_status_kept(ctx, repo, hsc, 'D2')
   # ---- D3 reassembly ----------------------------------------------------------------
   isr = q.find_method(repo, con, '_incoming_stats_reply', 'C17'); ctx.analysed(isr)
   # the parts collected so far belong to the reassembly alone: nothing else that runs while the connection is live (a handler
@@ -432,3 +435,21 @@ def run (ctx):
     g2 = q.cfg_of(sr)
     iv = g2.interval(lambda n: any(call_name(c) == '_incoming_stats_reply' for c in q.node_calls(n)))
     ctx.ob('R-EFFECT', sr, "every stats reply part enters reassembly exactly once", iv == (1, 1), "count %s" % (iv,), sr, 'D3')
+
+
+def early_port_status_kept (ctx, repo, hsc, clause):
+  hp = hsc.methods.get('handle_PORT_STATUS') if hsc is not None else None
+  if hp is None or len(hp.params) < 3: return
+  ctx.analysed(hp); g = q.cfg_of(hp); c_, m_ = hp.params[1], hp.params[2]
+  DP = c_ + '._deferred_port_status'
+  is_log = lambda e: isinstance(e, ast.Call) and call_name(e) in ('msg', 'info', 'debug', 'warn', 'warning', 'err')
+  outs = []
+  for buf in (['m1'], ['m1', 'm2', 'm1'], []):
+    for p_, e_ in q.paths_under(repo, hsc.module, g, q.Env({DP: list(buf), m_: 'm1'}, [(is_log, None)]), g.entry, [g.exit], hsc, limit=30):
+      outs.append((buf, e_.exact.get(DP, '?')))
+  if not outs or any(o_ == '?' or not isinstance(o_, list) for b_, o_ in outs):
+    ctx.undecided('R-EFFECT', hp, "every early port-status is buffered, in arrival order", "handler not evaluable on the sample buffers", hp, clause); return
+  bad = [(b_, o_) for b_, o_ in outs if o_ != b_ + ['m1']]
+  ctx.ob('R-EFFECT', hp, "every early port-status is buffered, in arrival order", not bad, "appended to 3 sample buffers (one already holding an equal message)" if not bad else
+         "with %r buffered, an arriving message equal to 'm1' leaves the buffer as %r: a repeated notification (the port was added, deleted and added again during the handshake) is dropped - "
+         "after connection-up the port view misses that port / keeps the outdated description" % bad[0], hp, clause)
